@@ -401,13 +401,21 @@ impl Parser {
                 self.err("Callback missing a body", span);
                 return None;
             }
-            // Unwrap `{ ... }` or `( ... )` only when the group is the entire body
-            [TokenTree::Group(group)] if group.delimiter() != Delimiter::Bracket => group.stream(),
-            // A group followed by more tokens, like `(a) + b` or `{ a } + b`: keep the whole
+            // Unwrap `{ ... }` only when the block is the entire body. `( ... )` is kept as it is
+            // written: it may be a tuple, `(a, b)`, which is no expression without its parentheses
+            [TokenTree::Group(group)]
+                if matches!(group.delimiter(), Delimiter::Brace | Delimiter::None) =>
+            {
+                group.stream()
+            }
+            // A group followed by more tokens, like `(a) + b` or `{ a } + b`, or a block-like
+            // expression followed by more tokens, like `match a { .. } + b`: keep the whole
             // expression, parenthesised so a leading block is not taken for a statement
-            [TokenTree::Group(_), _, ..] => {
-                let group = Group::new(Delimiter::Parenthesis, body.into_iter().collect());
-                TokenStream::from(TokenTree::Group(group))
+            [TokenTree::Group(_), _, ..] => parenthesised(body),
+            [TokenTree::Ident(keyword), .., last]
+                if is_block_like(keyword) && !is_brace_group(last) =>
+            {
+                parenthesised(body)
             }
             _ => body.into_iter().collect(),
         };
@@ -447,4 +455,20 @@ impl Parser {
     {
         self.errors.err(message, span)
     }
+}
+
+fn parenthesised(body: Vec<TokenTree>) -> TokenStream {
+    let group = Group::new(Delimiter::Parenthesis, body.into_iter().collect());
+    TokenStream::from(TokenTree::Group(group))
+}
+
+/// Keywords that start an expression which, at the start of a statement, ends with its block
+fn is_block_like(keyword: &Ident) -> bool {
+    ["match", "if", "loop", "while", "for", "unsafe"]
+        .iter()
+        .any(|kw| keyword == kw)
+}
+
+fn is_brace_group(tt: &TokenTree) -> bool {
+    matches!(tt, TokenTree::Group(group) if group.delimiter() == Delimiter::Brace)
 }
